@@ -79,18 +79,24 @@ func (s *Solver) restart() error {
 const endMark = "@@END@@"
 
 func (s *Solver) roundTrip(script string, hard time.Duration) ([]string, error) {
-	if _, err := io.WriteString(s.in, script+"\n(echo \""+endMark+"\")\n"); err != nil {
-		return nil, err
-	}
 	type res struct {
 		lines []string
 		err   error
 	}
-	ch := make(chan res, 1)
+	ch := make(chan res, 2)
+	// the write happens in its own goroutine: a solver that is busy while it still reads the script
+	// (z3 4.8.12 simplifies at assert time) would otherwise block the caller past the hard timeout
+	in := s.in
+	go func() {
+		if _, err := io.WriteString(in, script+"\n(echo \""+endMark+"\")\n"); err != nil {
+			ch <- res{nil, err}
+		}
+	}()
+	out := s.out
 	go func() {
 		var lines []string
 		for {
-			l, err := s.out.ReadString('\n')
+			l, err := out.ReadString('\n')
 			if err != nil {
 				ch <- res{lines, err}
 				return
